@@ -90,12 +90,15 @@ HARNESSES = [
          loops=["sqfs_xattr_writer_flush"], loop_tables=["C14"], native=False,
          fp=dict(_FP_FILE, destroy="mw_destroy"),
          timeout=600, cases=[dict(id="all", tier="quick")]),
-    dict(name="meta_append", file="meta_append.c",
-         label="bounded(append size <= 9000)", timeout=600, weight=20, defines={"APPEND_MAX": 9000},
-         unwindset=["sqfs_meta_writer_append.0:5", "c13_memcpy.0:9"],
+    dict(name="meta_append", file="meta_append.c", timeout=600, weight=20,
          instrument_flags=["--replace-calls", "sqfs_meta_writer_flush:c13_flush_contract"],
          fp=dict(_FP_FILE, do_block="c14_do_block", destroy="c14_obj_destroy"),
-         cases=[dict(id="all", tier="quick")]),
+         cases=[dict(id="max300", tier="quick", label="bounded(append size <= 300)",
+                     defines={"APPEND_MAX": 300},
+                     unwindset=["sqfs_meta_writer_append.0:4", "c13_memcpy.0:9"]),
+                dict(id="max9000", tier="thorough", label="bounded(append size <= 9000)",
+                     defines={"APPEND_MAX": 9000},
+                     unwindset=["sqfs_meta_writer_append.0:5", "c13_memcpy.0:9"])]),
     dict(name="meta_flush", file="meta_flush.c", label="proved",
          fp=dict(_FP_FILE, do_block="c14_do_block", destroy="c14_obj_destroy"),
          timeout=600, cases=[dict(id="all", tier="quick")]),
